@@ -618,3 +618,10 @@ func (s *Server) majorVersion() int {
 	}
 	return n
 }
+
+// AcceptedConns is the number of connections accepted so far; the next connection gets id AcceptedConns()+1.
+func (s *Server) AcceptedConns() int {
+	s.mu.Lock()
+	defer s.mu.Unlock()
+	return int(s.nextConn)
+}
